@@ -76,18 +76,18 @@ pub fn runs(tier: Tier) -> Vec<(HistCfg, Caps)> {
                 for d in [1usize, 2, 3] {
                     runs.push((
                         cfg(m, d, 6, full.clone(), vec![6, 2], obs.clone(), &format!("{}-d{d}-R2", m.short())),
-                        Caps { max_transitions: 40_000_000, max_wall: Duration::from_secs(240), max_signatures: 12 },
+                        Caps { max_transitions: 40_000_000, max_wall: Duration::from_secs(60), max_signatures: 12 },
                     ));
                 }
                 runs.push((
                     cfg(m, 2, 5, small.clone(), vec![5, 1, 1], obs.clone(), &format!("{}-d2-R3", m.short())),
-                    Caps { max_transitions: 40_000_000, max_wall: Duration::from_secs(180), max_signatures: 12 },
+                    Caps { max_transitions: 40_000_000, max_wall: Duration::from_secs(60), max_signatures: 12 },
                 ));
                 for d in [17usize, 33, 65, 130] {
                     let b = build_menu(&[None, Some(2)], &[Some(1), Some(2)], 1);
                     runs.push((
                         cfg(m, d, 5, b, vec![5, 1], obs.clone(), &format!("{}-d{d}-wide", m.short())),
-                        Caps { max_transitions: 5_000_000, max_wall: Duration::from_secs(60), max_signatures: 12 },
+                        Caps { max_transitions: 5_000_000, max_wall: Duration::from_secs(20), max_signatures: 12 },
                     ));
                 }
             }
@@ -106,7 +106,7 @@ pub fn run(tier: Tier) -> i32 {
         Tier::Quick => vec![(crate::props::txn_props::c01_two_index_cfg(Metric::Manhattan, 6), Caps { max_transitions: 5_000_000, max_wall: Duration::from_secs(15), max_signatures: 12 })],
         Tier::Thorough => M7
             .iter()
-            .map(|m| (crate::props::txn_props::c01_two_index_cfg(*m, 7), Caps { max_transitions: 50_000_000, max_wall: Duration::from_secs(200), max_signatures: 12 }))
+            .map(|m| (crate::props::txn_props::c01_two_index_cfg(*m, 7), Caps { max_transitions: 50_000_000, max_wall: Duration::from_secs(60), max_signatures: 12 }))
             .collect(),
     };
     crate::props::txn_props::run_txn(&mut report, "C01", two);
